@@ -45,6 +45,12 @@ type c22Op struct {
 	// Fault: the keyring file cannot be written while the request is handled the first time
 	// (its directory is moved away); the operator then repeats the same request
 	Fault bool
+	// Occupied: while the request is handled the keyring file's place is taken by a directory
+	// (the directory around it stays writable); the request fails with a write error, the
+	// operator carries on with other requests. Until the next accepted request rewrites the
+	// file, file and keyring may legitimately differ (the fault, not the node, is to blame);
+	// the file must still load, and after the next accepted request they agree again.
+	Occupied bool
 }
 
 type c22State struct {
@@ -223,8 +229,13 @@ func c22Gen(rng *rand.Rand) c22Case {
 			op.Key, op.Desc = badB64[rng.Intn(len(badB64))], "badb64"
 		}
 		if op.Kind != "list" && rng.Intn(12) == 0 {
-			op.Fault = true
-			op.Desc += "+write-fault-then-repeat"
+			if rng.Intn(2) == 0 {
+				op.Fault = true
+				op.Desc += "+write-fault-then-repeat"
+			} else {
+				op.Occupied = true
+				op.Desc += "+file-place-occupied"
+			}
 		}
 		c.Ops = append(c.Ops, op)
 		// keep `cur` roughly in step (only a generation bias; the oracle uses c22Model)
@@ -259,6 +270,9 @@ type c22Result struct {
 	rewrites   int // file content (bytes) differed after an op
 	modelAgree int
 	faults     int
+	occupied   int
+	staleSpans int
+	healed     int
 	trace      []string
 }
 
@@ -301,6 +315,7 @@ func c22Run(t *testing.T, c c22Case, dir string, seed int64) c22Result {
 		km := nd.S.KeyManager()
 		synctest.Wait()
 
+		stale := false // a write fault left the file behind the keyring; the next accepted request heals it
 		check := func(step string) (c22State, c22State, []byte, bool) {
 			live := c22Ring(nd.ML.Keyring)
 			raw, _ := os.ReadFile(path)
@@ -310,7 +325,7 @@ func c22Run(t *testing.T, c c22Case, dir string, seed int64) c22Result {
 				res.violKey = "file-unloadable"
 				return live, file, raw, false
 			}
-			if file.set() != live.set() {
+			if file.set() != live.set() && !stale {
 				res.viol = fmt.Sprintf("%s: keyring file loads into {%s} but the node's keyring is {%s}", step, file.set(), live.set())
 				res.violKey = "file-differs-from-keyring"
 				return live, file, raw, false
@@ -324,6 +339,42 @@ func c22Run(t *testing.T, c c22Case, dir string, seed int64) c22Result {
 		for i, op := range c.Ops {
 			var err error
 			var kr *serf.KeyResponse
+			if op.Occupied {
+				kept := path + ".kept-by-harness"
+				if os.Rename(path, kept) != nil || os.Mkdir(path, 0o700) != nil {
+					res.inconc = "cannot occupy the keyring file's place"
+					return
+				}
+				switch op.Kind {
+				case "install":
+					_, _ = km.InstallKey(op.Key)
+				case "use":
+					_, _ = km.UseKey(op.Key)
+				case "remove":
+					_, _ = km.RemoveKey(op.Key)
+				}
+				synctest.Wait()
+				if os.Remove(path) != nil || os.Rename(kept, path) != nil {
+					res.inconc = "cannot restore the keyring file"
+					return
+				}
+				res.occupied++
+				live := c22Ring(nd.ML.Keyring)
+				if live.set() != prevLive.set() {
+					stale = true
+					res.staleSpans++
+				}
+				// the reference follows the node: what a request does to the keyring when its file write
+				// fails is not part of the property
+				model.keys = nil
+				for _, k := range live.Keys {
+					raw, _ := base64.StdEncoding.DecodeString(k)
+					model.keys = append(model.keys, string(raw))
+				}
+				prevLive = live
+				res.trace = append(res.trace, fmt.Sprintf("step %d %s(%s key=%q) with the file's place occupied -> live={%s}", i, op.Kind, op.Desc, op.Key, live.set()))
+				continue
+			}
 			if op.Fault {
 				// first attempt while the file cannot be written; only survival is judged here
 				away := dir + ".away"
@@ -355,6 +406,10 @@ func c22Run(t *testing.T, c c22Case, dir string, seed int64) c22Result {
 			res.ops++
 			step := fmt.Sprintf("step %d %s(%s key=%q)", i, op.Kind, op.Desc, op.Key)
 			rejected := err != nil
+			if !rejected && op.Kind != "list" && stale {
+				stale = false // an accepted request rewrites the whole file
+				res.healed++
+			}
 			mRej, mChg := model.apply(op)
 			if kr != nil && err == nil && (kr.NumResp != 1 || kr.NumNodes != 1) {
 				res.inconc = fmt.Sprintf("%s: unexpected reply count %d/%d on a single node", step, kr.NumResp, kr.NumNodes)
@@ -423,6 +478,9 @@ func TestC22(t *testing.T) {
 		r.Count("file_reloads_compared", res.ops+1)
 		r.Count("model_agreements", res.modelAgree)
 		r.Count("requests_repeated_after_a_failed_file_write", res.faults)
+		r.Count("requests_failed_with_the_file_place_occupied", res.occupied)
+		r.Count("of_those_leaving_the_file_behind_the_keyring", res.staleSpans)
+		r.Count("stale_files_healed_by_the_next_accepted_request", res.healed)
 		r.Max("max_requests_in_sequence", int64(res.ops))
 		if res.inconc != "" {
 			r.Inconclusive(fmt.Sprintf("case %d: %s", ci, res.inconc))
